@@ -735,15 +735,16 @@ class unyt_array(np.ndarray):
                     new_units, self.dtype
                 )
 
-            self.units = new_units
             values = self.d
-            # if our dtype is an integer do the following somewhat awkward
-            # dance to change the dtype in-place. We can't use astype
-            # directly because that will create a copy and not update self
+            # Everything that can fail is done before the array is touched,
+            # so that a conversion that raises leaves both the data and the
+            # units as they were.
+            if not values.flags.writeable:
+                raise ValueError("Can't convert a read-only array in place.")
             if self.dtype.kind in ("u", "i"):
-                # create a copy of the original data in floating point
-                # form, it's possible this may lose precision for very
-                # large integers
+                # if our dtype is an integer do the following somewhat awkward
+                # dance to change the dtype in-place. We can't use astype
+                # directly because that will create a copy and not update self
                 dsize = values.dtype.itemsize
                 if dsize == 1:
                     raise ValueError(
@@ -759,7 +760,13 @@ class unyt_array(np.ndarray):
                         RuntimeWarning,
                         stacklevel=2,
                     )
+                # create a converted copy of the original data in floating
+                # point form, it's possible this may lose precision for very
+                # large integers
                 float_values = values.astype(new_dtype)
+                float_values *= conv_factor
+                if offset:
+                    np.subtract(float_values, offset, float_values)
                 # change the dtypes in-place, this does not change the
                 # underlying memory buffer
                 values.dtype = new_dtype
@@ -767,10 +774,11 @@ class unyt_array(np.ndarray):
                 # actually fill in the new float values now that our
                 # dtype is correct
                 np.copyto(values, float_values)
-            values *= conv_factor
-
-            if offset:
-                np.subtract(values, offset, values)
+            else:
+                values *= conv_factor
+                if offset:
+                    np.subtract(values, offset, values)
+            self.units = new_units
         else:
             self.convert_to_equivalent(units, equivalence, **kwargs)
 
